@@ -3,10 +3,11 @@
 id=$1; n=${2:-3}
 git -C /repo worktree remove --force /tmp/wt-$id 2>/dev/null
 git -C /repo worktree add -q --detach /tmp/wt-$id HEAD && mkdir -p /tmp/seed-out/$id
+[ -f /tmp/seed-out/$id.property.txt ] || python3 /verif/tools/proptext.py $id >/dev/null
 python3 - "$id" "$n" <<'PY'
 import sys
 id,n=sys.argv[1],sys.argv[2]
-t=open('/tmp/seed-out/PROMPT.tmpl').read().replace('@ID@',id).replace('@N@',n).replace('@PROPERTY@',open(f'/tmp/seed-out/{id}.property.txt').read())
+t=open('/verif/tools/seed_prompt.tmpl').read().replace('@ID@',id).replace('@N@',n).replace('@PROPERTY@',open(f'/tmp/seed-out/{id}.property.txt').read())
 open(f'/tmp/seed-out/{id}.prompt.txt','w').write(t)
 PY
 echo "prepared /tmp/wt-$id at $(git -C /tmp/wt-$id rev-parse --short HEAD)"
